@@ -62,7 +62,7 @@ def aesthetics(flux, invvar, method='traditional'):
                 damp1 = float(min(mingood, l))
                 newflux *= 0.5*(1.0+erf((pixels-mingood)/damp1))
             if maxgood < (nflux - 1):
-                damp2 = float(min(maxgood, l))
+                damp2 = float(max(min(maxgood, l), 1))
                 newflux *= 0.5*(1.0+erf((maxgood-pixels)/damp2))
         elif method == 'nothing':
             newflux = flux.copy()
